@@ -708,7 +708,10 @@ def unit_body(w, sched, r):
                 w.in_prot.validate_document(payload)
                 return ['valid']
             except Fault as e:
-                return ['fault', errid(str(e.faultstring))]
+                fs = e.faultstring
+                if isinstance(fs, bytes):
+                    fs = fs.decode('ascii', 'replace')
+                return ['fault', errid(str(fs))]
         return f
     if kind == 'idle':
         return None
